@@ -17,6 +17,12 @@ Clauses -> case families
     every frame of every transfer
   * no frame sequence makes the server raise or fall silent: ops 'junk',
     'stray', interrupted transfers ('stop_after'), starting from a fresh node
+
+The reference transfers are written out in this module (_upload / _download, on top of
+RefSdoClient.xfer) because they need variants the plain reference client does not have:
+download segments carrying 1..6 bytes although they are not the last one, a trailing empty
+last segment, request frames whose reserved bits / unused bytes are not zero ('dirty'),
+transfers stopped after k segments (the state of the open transfer goes to the model).
 """
 import struct
 
@@ -35,9 +41,19 @@ RULE = ("case = generated object dictionary (variables, records, arrays; all dat
         "ops on a freshly created LocalNode: upload(entry), download(entry, bytes, exp|exp_nosize|seg_size|"
         "seg_nosize), transfers interrupted after k segments (restart), junk frames of 1..8 bytes, stray "
         "segments with either toggle, client aborts, block-upload initiate (legal downgrade), the application changing an entry's access type "
-        "between requests. Oracle: "
-        "frame-level reference client validating every response + dict model of the store with precedence "
-        "callback > downloaded > parameter value > default; expected bytes from the independent codec. "
+        "between requests. Segmented downloads also with 1..6 byte segments that are not the last one and with a "
+        "trailing empty last segment (field n is valid in every segment); upload / download requests whose "
+        "reserved bits and unused bytes are not zero ('dirty': the server may refuse them, but if it serves "
+        "them the answer is judged like any other); the same entry uploaded repeatedly with an interrupted "
+        "upload in between; 1..3 registered read callbacks that share the callback table (each entry is served "
+        "by exactly one of them, the others return None), callbacks / code-built defaults handing out the "
+        "application's own bytearray (same object every time, must be unchanged afterwards); a segment with the "
+        "wrong toggle bit - also a last download segment - sent into a transfer the model knows to be open. "
+        "Oracle: "
+        "frame-level reference client validating every response (scs, multiplexer echo, size announced = "
+        "s bit set and true, toggle from 0, c exactly at the end, n, zero padding) + dict model of the store with precedence "
+        "callback > downloaded > parameter value > default; expected bytes from the independent codec; an "
+        "interrupted upload must have delivered a prefix of them. "
         "Non-trivial = history with >=1 segmented transfer and >=1 of {junk, stray, interrupted, empty "
         "value, callback source, falsy parameter value}; distinct = canonical JSON.")
 ASSUMPTIONS = [
@@ -47,6 +63,14 @@ ASSUMPTIONS = [
     "top-level variables ignore the sub-index in this implementation (not generated as 'missing'); array members "
     "2..255 that are not listed exist and are described by member 1 (type, access, default)",
     "indexes 0x1017 and 0x1400..0x1BFF are not generated (they carry heartbeat / PDO side effects)",
+    "'announces the true size' is read as: every initiate upload response has s=1 and the size field / n equals "
+    "the number of bytes delivered (CiA 301 would also allow s=0)",
+    "a request with non-zero reserved bits / unused bytes ('dirty') may be refused with any abort code; when "
+    "it is served the transfer is judged like a clean one",
+    "when several read callbacks are registered no entry is given a value by more than one of them (the "
+    "order of precedence between callbacks is not part of the property)",
+    "an unknown command (ccs 7) received while a transfer is open is answered with the multiplexer of that "
+    "transfer or with bytes 1..3 of the offending frame (both readings of 'the multiplexer of the transfer')",
 ]
 BUDGET = {"quick": 150, "thorough": 420}
 
@@ -56,6 +80,8 @@ RX, TX = 0x600 + NODE, 0x580 + NODE
 CODES = {
     "wo": {0x06010001}, "ro": {0x06010002}, "noindex": {0x06020000}, "nosub": {0x06090011},
     "length": {0x06070010, 0x06070012, 0x06070013}, "novalue": {0x060A0023, 0x08000024},
+    # CiA 301: 0607 0012h "length of service parameter too high", 0607 0013h "... too low"
+    "length_long": {0x06070010, 0x06070012}, "length_short": {0x06070010, 0x06070013},
     "toggle": {0x05030000}, "command": {0x05040001},
 }
 
@@ -139,13 +165,48 @@ class Rig:
         self.wlog = []
         self.rcb = {(r["index"], r["sub"]): r for r in case.get("read_cb", [])}
         self.rcalls = []
+        # objects of the application that the server is handed and must not modify:
+        # (description, the object, its original content)
+        self.mutables = []
+        self.rret = {}
+        for k, r in self.rcb.items():
+            if r.get("mutable") and isinstance(r["ret"], (bytes, bytearray)):
+                # the application's own buffer: the same bytearray on every call
+                self.rret[k] = bytearray(r["ret"])
+                self.mutables.append((f"value returned by the read callback for {k[0]:04x}:{k[1]:02x}",
+                                      self.rret[k], bytes(r["ret"])))
+            else:
+                self.rret[k] = r["ret"]
+        if not self.from_text:
+            for index, sub, spec, kind in entries(case["od"]):
+                if not spec.get("mutable"):
+                    continue
+                var = self.od[index] if kind == "var" else self.od[index][sub]
+                for attr in ("default", "value"):
+                    if isinstance(getattr(var, attr), bytes):
+                        setattr(var, attr, bytearray(getattr(var, attr)))
+                        self.mutables.append((f"{attr} of {index:04x}:{sub:02x}", getattr(var, attr),
+                                              bytes(getattr(var, attr))))
         if case.get("write_cb", True):
             self.node.add_write_callback(self._wcb)
             if case.get("two_write_cbs"):
                 self.node.add_write_callback(self._wcb2)
                 self.wlog2 = []
-        if self.rcb:
-            self.node.add_read_callback(self._rcb)
+        # read callbacks: the table is shared out over 1..3 registered callbacks (entry["cb"] says which
+        # one serves it); every callback returns None for what it does not serve
+        ncb = case.get("read_cbs") or (1 if self.rcb else 0)
+        for k in range(ncb):
+            self.node.add_read_callback(self._make_rcb(k, ncb))
+
+    def _make_rcb(self, k, ncb):
+        def rcb(**kw):
+            key = (kw.get("index"), kw.get("subindex"))
+            self.rcalls.append(key + (k,))
+            r = self.rcb.get(key)
+            if r is None or r.get("cb", 0) % ncb != k:
+                return None
+            return self.rret[key]
+        return rcb
 
     def _on(self, fr):
         if fr.can_id == TX:
@@ -161,13 +222,6 @@ class Rig:
 
     def _wcb2(self, **kw):
         self.wlog2.append((kw.get("index"), kw.get("subindex"), bytes(kw.get("data"))))
-
-    def _rcb(self, **kw):
-        self.rcalls.append((kw.get("index"), kw.get("subindex")))
-        r = self.rcb.get((kw.get("index"), kw.get("subindex")))
-        if r is None:
-            return None
-        return r["ret"]
 
 
 class Model:
@@ -189,6 +243,9 @@ class Model:
         self.rcb = {(r["index"], r["sub"]): r for r in case.get("read_cb", [])}
         self.last_mux = None
         self.dl_open = False
+        # the segmented transfer the reference client has left unfinished, if the model is sure there is
+        # one: {"dir": "up"|"down", "t": toggle the next segment must carry, "buf": bytes sent so far}
+        self.open = None
 
     def lookup(self, index, sub):
         """-> (spec | None, condition | None)"""
@@ -249,7 +306,7 @@ class Model:
         if not self.writable(spec):
             codes |= CODES["ro"]
         if spec["dt"] in rc.NUMERIC and len(data) * 8 != rc.NUMERIC[spec["dt"]]:
-            codes |= CODES["length"]
+            codes |= CODES["length_long" if len(data) * 8 > rc.NUMERIC[spec["dt"]] else "length_short"]
         if codes:
             return ("abort", codes)
         return ("ok",)
@@ -320,19 +377,47 @@ def run_history(case, prefix):
             exp = m.expected_read(index, sub)
             m.last_mux = (index, sub)
             m.dl_open = False
+            m.open = None
+            dirty = op.get("dirty", 0)
             if op.get("stop_after") is not None:
                 feats.add("interrupted")
-                res = _partial_upload(cl, index, sub, op["stop_after"], op.get("blockinit"))
             elif op.get("blockinit"):
                 feats.add("blockinit")
-                res = _upload_blockinit(cl, index, sub)
-            else:
-                res = cl.upload(index, sub)
+            if dirty:
+                feats.add("dirty")
+            res = _upload(cl, index, sub, blockinit=bool(op.get("blockinit")), dirty=dirty,
+                          stop_after=op.get("stop_after"))
             frame_checks(tag)
             if res[0] == "partial":
-                pass
+                # an interrupted upload: what has arrived so far is judged, and the model remembers
+                # whether the transfer is still open and which toggle the next segment must carry
+                pst = res[1]
+                if pst["open"]:
+                    m.open = {"dir": "up", "t": pst["t"], "buf": b""}
+                if exp[0] == "skip":
+                    feats.add("skip:" + exp[1])
+                elif dirty and pst["abort"] is not None:
+                    feats.add("dirty-refused")
+                elif exp[0] == "ok":
+                    if pst["abort"] is not None or pst["error"]:
+                        bad("upload/refused", f"{tag}: expected {exp[1][:24].hex()}({len(exp[1])}B), got "
+                                              f"{pst['abort'] or 'a malformed answer'}")
+                    elif not exp[1].startswith(pst["buf"]) or (pst["done"] and pst["buf"] != exp[1]):
+                        bad("upload/bytes", f"{tag}: interrupted upload delivered {pst['buf'][:24].hex()}"
+                                            f"({len(pst['buf'])}B{', complete' if pst['done'] else ''}), value is "
+                                            f"{exp[1][:24].hex()}({len(exp[1])}B)")
+                else:
+                    if pst["abort"] is None:
+                        bad("upload/not-refused", f"{tag}: expected abort {sorted(hex(c) for c in exp[1])}, "
+                                                  f"the upload was served")
+                    else:
+                        check_abort(tag, pst["abort"], exp[1], (index, sub), "read")
+                        feats.add("refused-read")
             elif exp[0] == "skip":
                 feats.add("skip:" + exp[1])
+            elif dirty and res[0] == "abort":
+                # reserved bits / bytes of the request were not zero: refusing it is legitimate
+                feats.add("dirty-refused")
             elif exp[0] == "ok":
                 if res[0] != "ok":
                     bad("upload/refused", f"{tag}: expected {exp[1][:24].hex()}({len(exp[1])}B), got {res}")
@@ -360,19 +445,43 @@ def run_history(case, prefix):
             exp = m.expected_write(index, sub, data)
             before = _store_snapshot(rig.node)
             m.last_mux = (index, sub)
+            m.open = None
+            dirty = op.get("dirty", 0)
+            chunks = op.get("chunks")
+            if dirty:
+                feats.add("dirty")
+            if style.startswith("seg") and (chunks or op.get("empty_last")):
+                feats.add("short-segments")
             if op.get("stop_after") is not None and style.startswith("seg"):
                 feats.add("interrupted")
-                _partial_download(cl, index, sub, data, style, op["stop_after"])
+                res = _download(cl, index, sub, data, style, chunks=chunks, dirty=dirty,
+                                stop_after=op["stop_after"])
                 m.dl_open = True
+                if res[1]["open"]:
+                    m.open = {"dir": "down", "t": res[1]["t"], "buf": res[1]["buf"]}
                 frame_checks(tag)
                 if _store_snapshot(rig.node) != before:
                     bad("store-changed-by-unfinished-download", f"{tag}")
                 if len(rig.wlog) != wl:
                     bad("write-callback-before-completion", f"{tag}")
+                if D:
+                    break
                 continue
             m.dl_open = False
-            res = cl.download(index, sub, data, style)
+            res = _download(cl, index, sub, data, style, chunks=chunks, empty_last=bool(op.get("empty_last")),
+                            dirty=dirty)
             frame_checks(tag)
+            if dirty and res[0] == "abort" and exp[0] == "ok":
+                # reserved bits / unused bytes of the request were not zero: refusing it is legitimate,
+                # and then nothing may have changed
+                feats.add("dirty-refused")
+                if _store_snapshot(rig.node) != before:
+                    bad("refused-write-changed-store", f"{tag}: data_store changed by a refused write")
+                if len(rig.wlog) != wl:
+                    bad("refused-write-callback", f"{tag}: write callback invoked for a refused write")
+                if D:
+                    break
+                continue
             if style.startswith("seg"):
                 feats.add("segmented")
             if exp[0] == "skip":
@@ -402,7 +511,7 @@ def run_history(case, prefix):
                         bad("write-callback-second", f"{tag}: second write callback saw "
                                                      f"{rig.wlog2[-1:] if rig.wlog2 else None}")
                     stores_agree(tag)
-            elif (style == "exp_nosize" and res[0] == "ok" and exp[1] == CODES["length"]
+            elif (style == "exp_nosize" and res[0] == "ok" and exp[1] == CODES["length_long"]
                   and len(data) * 8 > rc.NUMERIC[m.lookup(index, sub)[0]["dt"]]):
                 # an expedited download that does NOT indicate its size (e=1, s=0) carries "4 bytes of which
                 # an unspecified number are data": no payload length is stated, so this is not "a payload
@@ -418,7 +527,8 @@ def run_history(case, prefix):
                     bad("download/not-refused", f"{tag}: expected abort "
                                                 f"{sorted(hex(c) for c in exp[1])}, got {res[0]}")
                 else:
-                    check_abort(tag, res[1], exp[1], (index, sub), "write")
+                    # (a request with non-zero reserved bits may be refused for that reason, with any code)
+                    check_abort(tag, res[1], exp[1] if not dirty else {res[1][2]}, (index, sub), "write")
                     feats.add("refused-write")
                 after = _store_snapshot(rig.node)
                 if after != before:
@@ -454,8 +564,25 @@ def run_history(case, prefix):
                             if struct.unpack_from("<HB", r, 1) != mux:
                                 bad("abort-mux/command", f"{tag}: abort {r.hex()} does not carry the "
                                                          f"requested multiplexer")
+                        elif (fr[0] >> 5) == 7 and m.open is not None and m.last_mux is not None:
+                            # an unknown command in the middle of a transfer: "the multiplexer of the
+                            # transfer" (or, read literally as a request frame, bytes 1..3 of the frame)
+                            ok_mux = {tuple(m.last_mux)}
+                            if len(fr) >= 4:
+                                ok_mux.add(struct.unpack_from("<HB", fr, 1))
+                            if struct.unpack_from("<HB", r, 1) not in ok_mux:
+                                bad("abort-mux/command", f"{tag}: abort {r.hex()} in the middle of the transfer "
+                                                         f"of {m.last_mux[0]:04x}:{m.last_mux[1]:02x} carries "
+                                                         f"another multiplexer")
+                            feats.add("unknown-command-in-transfer")
                     feats.add("unknown-command")
+                if len(resp) == 1 and len(resp[0]) == 8 and resp[0][0] != 0x80:
+                    # the server took the frame for a request and answered it: the answer must be the
+                    # well-formed response to that request (and tell the truth about the entry)
+                    _answer_checks(bad, tag, fr, resp[0], m)
             frame_checks(tag)
+            # whatever the frame was, the model is no longer sure that a transfer is open
+            m.open = None
             # what may a conformant-looking junk frame legitimately have changed?
             ccs = fr[0] >> 5
             # initiate-type frames carry the multiplexer the server will use from now on
@@ -493,12 +620,32 @@ def run_history(case, prefix):
             m.ent[(index, sub)] = dict(m.ent[(index, sub)], access=op["access"])
             feats.add("access-changed")
         elif kind == "toggle":
-            # a segment with the wrong toggle bit while a transfer is in progress
-            t = op["t"]
-            if op["dir"] == "up":
+            # a segment with the wrong toggle bit while a transfer is in progress.  'last' (download):
+            # the segment is flagged as the last one and carries 'payload' (0..7 bytes) - were the toggle
+            # right it would complete the download.  Without 't' the wrong toggle is derived from the
+            # open transfer the model knows of (no such transfer: the op is skipped)
+            d = op["dir"]
+            if op.get("t") is None:
+                if m.open is None or m.open["dir"] != d:
+                    feats.add("toggle-skipped")
+                    continue
+                t = m.open["t"] ^ 1
+            else:
+                t = op["t"]
+            codes = set(CODES["toggle"])
+            if d == "up":
                 fr = bytes([0x60 | (t << 4)]) + bytes(7)
             else:
-                fr = bytes([t << 4]) + b"abcdefg"
+                last = 1 if op.get("last") else 0
+                payload = bytes(op.get("payload", b"abcdefg"))[:7]
+                fr = bytes([(t << 4) | ((7 - len(payload)) << 1) | last]) + payload.ljust(7, b"\0")
+                if last and m.open is not None and m.open["dir"] == "down" and m.last_mux is not None:
+                    # the completed value may be one the entry would refuse anyway: any of the codes
+                    w = m.expected_write(m.last_mux[0], m.last_mux[1], m.open["buf"] + payload)
+                    if w[0] == "abort":
+                        codes |= w[1]
+                    feats.add("toggle-last-segment")
+            m.open = None
             before = _store_snapshot(rig.node)
             r = cl.xfer(fr)
             frame_checks(tag)
@@ -506,14 +653,21 @@ def run_history(case, prefix):
                 if r[0] != 0x80:
                     bad("toggle/not-refused", f"{tag}: segment with wrong toggle answered {r.hex()}")
                 else:
-                    check_abort(tag, cl.abort_fields(r), CODES["toggle"], m.last_mux, "toggle")
+                    check_abort(tag, cl.abort_fields(r), codes, m.last_mux, "toggle")
                     feats.add("refused-toggle")
             if _store_snapshot(rig.node) != before:
-                bad("toggle/changed-store", tag)
+                bad("toggle/changed-store", f"{tag}: data_store changed by a segment with the wrong toggle bit "
+                                            f"({fr.hex()})")
             if len(rig.wlog) != wl:
-                bad("toggle/write-callback", tag)
+                bad("toggle/write-callback", f"{tag}: write callback invoked for a segment with the wrong "
+                                             f"toggle bit ({fr.hex()})")
         else:
             raise ValueError(kind)
+        for what, obj, orig in rig.mutables:
+            if bytes(obj) != orig:
+                bad("application-object-modified", f"{tag}: the {what} (the application's bytearray) was "
+                                                   f"{orig[:24].hex()}({len(orig)}B), now "
+                                                   f"{bytes(obj)[:24].hex()}({len(obj)}B)")
         if D:
             break
     nontrivial = "segmented" in feats and bool(
@@ -522,78 +676,234 @@ def run_history(case, prefix):
     return Outcome(nontrivial, klass, D), feats
 
 
-def _partial_upload(cl, index, sub, nseg, blockinit=False):
-    req = struct.pack("<BHB4x", 0x40, index, sub)
+def _answer_checks(bad, tag, fr, r, m):
+    """The server answered the arbitrary frame `fr` with the non-abort frame `r`: CiA 301 layout of
+    that response, and for an initiate upload response the truth about the addressed entry."""
+    ccs, scs = fr[0] >> 5, r[0] >> 5
+    allowed = {0: (1,), 1: (3,), 2: (2,), 3: (0,), 5: (2, 6), 6: (5,)}.get(ccs, ())
+    if scs not in allowed:
+        bad("junk/response-kind", f"{tag}: a frame with ccs {ccs} answered with scs {scs} ({r.hex()})")
+        return
+    if scs == 2:
+        if len(fr) >= 4 and r[1:4] != fr[1:4]:
+            bad("junk/response-mux", f"{tag}: upload response {r.hex()} does not echo the multiplexer")
+        e, sz, n = (r[0] >> 1) & 1, r[0] & 1, (r[0] >> 2) & 3
+        if r[0] & 0x10:
+            bad("junk/response-reserved", f"{tag}: reserved bit 4 set in {r.hex()}")
+        if e:
+            size = 4 - n if sz else 4
+            if n and not sz:
+                bad("junk/response-n", f"{tag}: n without s in {r.hex()}")
+            if any(r[4 + size:8]):
+                bad("junk/response-padding", f"{tag}: bytes after the expedited data are not zero in {r.hex()}")
+        else:
+            if n:
+                bad("junk/response-n", f"{tag}: n set in the segmented upload response {r.hex()}")
+            if not sz and any(r[4:8]):
+                bad("junk/response-reserved", f"{tag}: size field not zero although s=0 in {r.hex()}")
+        if len(fr) == 8 and (ccs == 2 or (ccs == 5 and not fr[0] & 3)):
+            index, sub = struct.unpack_from("<HB", fr, 1)
+            exp = m.expected_read(index, sub)
+            if exp[0] == "ok":
+                if not sz:
+                    bad("response/size-not-announced", f"{tag}: upload response {r.hex()} without size")
+                elif e and r[4:4 + size] != exp[1]:
+                    bad("junk/response-bytes", f"{tag}: upload response {r.hex()}, the value is "
+                                               f"{exp[1][:16].hex()}({len(exp[1])}B)")
+                elif not e and struct.unpack_from("<L", r, 4)[0] != len(exp[1]):
+                    bad("junk/response-size", f"{tag}: upload response {r.hex()} announces "
+                                              f"{struct.unpack_from('<L', r, 4)[0]} bytes, the value has {len(exp[1])}")
+    elif scs == 3:
+        if len(fr) >= 4 and r[1:4] != fr[1:4]:
+            bad("junk/response-mux", f"{tag}: download response {r.hex()} does not echo the multiplexer")
+        if r[0] & 0x1F or any(r[4:8]):
+            bad("junk/response-reserved", f"{tag}: reserved bits / bytes set in {r.hex()}")
+    elif scs == 1:
+        if r[0] & 0x0F or any(r[1:8]):
+            bad("junk/response-reserved", f"{tag}: reserved bits / bytes set in {r.hex()}")
+        if (r[0] >> 4) & 1 != (fr[0] >> 4) & 1:
+            bad("junk/response-toggle", f"{tag}: segment response {r.hex()} does not echo the toggle bit")
+    elif scs == 0:
+        n = (r[0] >> 1) & 7
+        if any(r[8 - n:8]):
+            bad("junk/response-padding", f"{tag}: unused segment bytes are not zero in {r.hex()}")
+        if (r[0] >> 4) & 1 != (fr[0] >> 4) & 1:
+            bad("junk/response-toggle", f"{tag}: segment response {r.hex()} does not echo the toggle bit")
+
+
+def _upload(cl, index, sub, blockinit=False, dirty=0, stop_after=None):
+    """A standard-conformant upload, every response frame validated (findings go to cl.errors).
+
+    blockinit   start with a block upload initiate; the server may legally answer with a normal
+                initiate upload response (protocol switch), the transfer then continues as a normal one
+    dirty       1..255: reserved bits of the requests = the low bits of this value, reserved bytes =
+                this value (a server may refuse such a request or ignore the bits)
+    stop_after  k: stop before the (k+1)-th segment request (an interrupted transfer)
+
+    -> ('ok', data) | ('abort', (index, sub, code)) | ('error', None), or with stop_after
+       ('partial', {"open": transfer still open, "t": toggle of the next segment, "buf": bytes received,
+                    "done": all of the value received, "abort": abort fields | None, "error": bool})
+    """
+    partial = stop_after is not None
+    pst = {"open": False, "t": 0, "buf": b"", "done": False, "abort": None, "error": False}
+    fill = bytes([dirty])
+    if blockinit:
+        req = struct.pack("<BHBBB2x", 0xA4, index, sub, 127, 0)
+    else:
+        req = struct.pack("<BHB", 0x40 | (dirty & 0x1F), index, sub) + fill * 4
     r = cl.xfer(req)
-    if r is None or len(r) != 8 or r[0] == 0x80 or (r[0] >> 5) != 2 or r[0] & 2:
-        return ("partial", None)
-    t = 0
-    for _ in range(nseg):
-        r = cl.xfer(bytes([0x60 | (t << 4)]) + bytes(7))
-        if r is None or len(r) != 8 or r[0] == 0x80 or r[0] & 1:
-            break
-        t ^= 1
-    return ("partial", None)
-
-
-def _upload_blockinit(cl, index, sub):
-    """Block upload initiate; the server may legally answer with a normal
-    upload response (protocol switch).  Continue as a normal upload."""
-    r = cl.xfer(struct.pack("<BHBBB2x", 0xA4, index, sub, 127, 0))
     if r is None or len(r) != 8:
-        return ("error", None)
+        pst["error"] = True
+        return ("partial", pst) if partial else ("error", None)
     if r[0] == 0x80:
-        return ("abort", cl.abort_fields(r))
-    if (r[0] >> 5) != 2:
-        cl._err("scs", f"block upload initiate answered with {r[0]:02x}", r)
-        return ("error", None)
+        pst["abort"] = cl.abort_fields(r)
+        return ("partial", pst) if partial else ("abort", pst["abort"])
+    cmd = r[0]
+    if cmd >> 5 != 2:
+        cl._err("scs", f"{'block' if blockinit else 'initiate'} upload request answered with scs {cmd >> 5}", r)
+        pst["error"] = True
+        return ("partial", pst) if partial else ("error", None)
     if struct.unpack_from("<HB", r, 1) != (index, sub):
-        cl._err("mux", "response for another multiplexer", r)
-    e, s, n = (r[0] >> 1) & 1, r[0] & 1, (r[0] >> 2) & 3
+        cl._err("mux", f"response for {r[1:4].hex()} to request for {index:04x}:{sub:02x}", r)
+    if cmd & 0x10:
+        cl._err("reserved", "reserved bit 4 set in initiate upload response", r)
+    e, s, n = (cmd >> 1) & 1, cmd & 1, (cmd >> 2) & 3
+    if not s:
+        cl._err("size-not-announced", "initiate upload response without size indication (s=0)", r)
     if e:
-        size = 4 - n if s else 4
-        return ("ok", r[4:4 + size])
+        if s:
+            size = 4 - n
+        else:
+            if n:
+                cl._err("n", "n set without s in expedited upload response", r)
+            size = 4
+        if any(r[4 + size:8]):
+            cl._err("padding", "bytes after expedited data are not zero", r)
+        pst.update(buf=r[4:4 + size], done=True)
+        return ("partial", pst) if partial else ("ok", r[4:4 + size])
+    if n:
+        cl._err("n", "n set in segmented initiate upload response", r)
     declared = struct.unpack_from("<L", r, 4)[0] if s else None
+    if not s and any(r[4:8]):
+        cl._err("reserved", "size field not zero although s=0", r)
     buf = bytearray()
     t = 0
+    nseg = 0
     while True:
-        r = cl.xfer(bytes([0x60 | (t << 4)]) + bytes(7))
+        if partial and nseg >= stop_after:
+            pst.update(open=True, t=t, buf=bytes(buf))
+            return ("partial", pst)
+        r = cl.xfer(bytes([0x60 | (t << 4) | (dirty & 0x0F)]) + fill * 7)
+        nseg += 1
         if r is None or len(r) != 8:
-            return ("error", None)
+            pst.update(error=True, buf=bytes(buf))
+            return ("partial", pst) if partial else ("error", None)
         if r[0] == 0x80:
-            return ("abort", cl.abort_fields(r))
-        if (r[0] >> 4) & 1 != t:
-            cl._err("toggle", "segment toggle", r)
-        buf += r[1:8 - ((r[0] >> 1) & 7)]
+            pst.update(abort=cl.abort_fields(r), buf=bytes(buf))
+            return ("partial", pst) if partial else ("abort", pst["abort"])
+        cmd = r[0]
+        if cmd >> 5 != 0:
+            cl._err("scs", f"upload segment response scs {cmd >> 5}", r)
+            pst.update(error=True, buf=bytes(buf))
+            return ("partial", pst) if partial else ("error", None)
+        if (cmd >> 4) & 1 != t:
+            cl._err("toggle", f"segment toggle {(cmd >> 4) & 1}, expected {t}", r)
+        n, c = (cmd >> 1) & 7, cmd & 1
+        ln = 7 - n
+        if any(r[1 + ln:8]):
+            cl._err("padding", "unused segment bytes are not zero", r)
+        buf += r[1:1 + ln]
         t ^= 1
-        if r[0] & 1:
+        if c:
             break
+        if ln == 0:
+            cl._err("empty-segment", "empty segment that is not the last one", r)
+        if declared is not None and len(buf) >= declared:
+            cl._err("c", f"no last-segment flag although {len(buf)} of {declared} bytes are through", r)
+            if len(buf) > declared + 64:
+                pst.update(error=True, buf=bytes(buf))
+                return ("partial", pst) if partial else ("error", None)
         if len(buf) > 70000:
-            return ("error", None)
+            cl._err("c", f"no last-segment flag after {len(buf)} bytes", r)
+            pst.update(error=True, buf=bytes(buf))
+            return ("partial", pst) if partial else ("error", None)
     if declared is not None and declared != len(buf):
-        cl._err("size", f"announced {declared}, delivered {len(buf)}")
-    return ("ok", bytes(buf))
+        cl._err("size", f"announced {declared} bytes, delivered {len(buf)}")
+    pst.update(buf=bytes(buf), done=True)
+    return ("partial", pst) if partial else ("ok", bytes(buf))
 
 
-def _partial_download(cl, index, sub, data, style, nseg):
-    if style == "seg_size":
-        req = struct.pack("<BHBL", 0x21, index, sub, len(data))
+def _download(cl, index, sub, data, style, chunks=None, empty_last=False, dirty=0, stop_after=None):
+    """A standard-conformant download, every response frame validated (findings go to cl.errors).
+
+    style       'exp' (1..4 bytes), 'exp_nosize' (4 bytes), 'seg_size', 'seg_nosize'
+    chunks      list of 1..7 (cycled): number of data bytes in successive segments - CiA 301 gives every
+                segment, not only the last one, the field n "bytes that do not contain data"
+    empty_last  all data travels in segments that are not the last one; an empty last segment follows
+    dirty       1..255: unused bytes of every request carry this value instead of zero, the reserved
+                bit 4 of the initiate request is bit 4 of this value
+    stop_after  k: send at most k segments and never the last one (an interrupted transfer)
+
+    -> ('ok', None) | ('abort', (index, sub, code)) | ('error', None), or with stop_after
+       ('partial', {"open": transfer open, "t": toggle of the next segment, "buf": bytes sent so far})
+    """
+    data = bytes(data)
+    partial = stop_after is not None
+    pst = {"open": False, "t": 0, "buf": b""}
+    fill = bytes([dirty])
+    x = dirty & 0x10
+    if style == "exp":
+        n = 4 - len(data)
+        req = struct.pack("<BHB", 0x23 | (n << 2) | x, index, sub) + data + fill * n
+    elif style == "exp_nosize":
+        req = struct.pack("<BHB", 0x22 | x, index, sub) + data
+    elif style == "seg_size":
+        req = struct.pack("<BHBL", 0x21 | x, index, sub, len(data))
     else:
-        req = struct.pack("<BHB4x", 0x20, index, sub)
+        req = struct.pack("<BHB", 0x20 | x, index, sub) + fill * 4
     r = cl.xfer(req)
-    if r is None or len(r) != 8 or r[0] == 0x80:
-        return
-    t = 0
-    pos = 0
-    for _ in range(nseg):
-        chunk = data[pos:pos + 7]
-        pos += len(chunk)
+    if r is None or len(r) != 8:
+        return ("partial", pst) if partial else ("error", None)
+    if r[0] == 0x80:
+        return ("partial", pst) if partial else ("abort", cl.abort_fields(r))
+    if r[0] != 0x60:
+        cl._err("scs", f"initiate download response command {r[0]:02x}", r)
+        return ("partial", pst) if partial else ("error", None)
+    if struct.unpack_from("<HB", r, 1) != (index, sub):
+        cl._err("mux", "initiate download response for another multiplexer", r)
+    if any(r[4:8]):
+        cl._err("reserved", "reserved bytes of initiate download response not zero", r)
+    if style in ("exp", "exp_nosize"):
+        return ("partial", pst) if partial else ("ok", None)
+    sizes = [max(1, min(7, int(c))) for c in chunks] if chunks else [7]
+    t = pos = k = 0
+    while True:
         if pos >= len(data):
-            break  # never send the last segment
-        r = cl.xfer(bytes([(t << 4) | ((7 - len(chunk)) << 1)]) + chunk.ljust(7, b"\0"))
-        if r is None or len(r) != 8 or r[0] == 0x80:
-            return
+            chunk, last = b"", True          # the empty value, or the trailing empty last segment
+        else:
+            chunk = data[pos:pos + sizes[k % len(sizes)]]
+            last = pos + len(chunk) >= len(data) and not empty_last
+        if partial and (last or k >= stop_after):
+            pst.update(open=True, t=t, buf=data[:pos])
+            return ("partial", pst)
+        pos += len(chunk)
+        k += 1
+        req = bytes([(t << 4) | ((7 - len(chunk)) << 1) | (1 if last else 0)]) + chunk + fill * (7 - len(chunk))
+        r = cl.xfer(req)
+        if r is None or len(r) != 8:
+            return ("partial", pst) if partial else ("error", None)
+        if r[0] == 0x80:
+            return ("partial", pst) if partial else ("abort", cl.abort_fields(r))
+        if r[0] >> 5 != 1:
+            cl._err("scs", f"download segment response scs {r[0] >> 5}", r)
+            return ("partial", pst) if partial else ("error", None)
+        if (r[0] >> 4) & 1 != t:
+            cl._err("toggle", f"download segment response toggle {(r[0] >> 4) & 1} expected {t}", r)
+        if r[0] & 0x0F or any(r[1:8]):
+            cl._err("reserved", "reserved bits/bytes of download segment response not zero", r)
         t ^= 1
+        if last:
+            return ("ok", None)
 
 
 def run_case(case) -> Outcome:
@@ -702,27 +1012,68 @@ def history(draw, max_len, refusal_bias=False, max_ops=14):
             for sub in sorted(draw(st.sets(st.integers(2, 255).filter(lambda v: v not in have), max_size=2))):
                 ent.append((o["index"], sub, {k: v for k, v in tmpl.items() if k != "value"}, "array"))
     case = {"od": od}
-    if draw(st.integers(0, 2)) == 0:
+    if draw(st.integers(0, 1 if refusal_bias else 2)) == 0:
         cbs = []
-        for (i, s, spec, kind) in draw(st.lists(st.sampled_from(ent), max_size=3, unique_by=lambda e: (e[0], e[1]))):
+        ncb = draw(st.sampled_from([1, 1, 2, 3]))
+        pool = ent
+        if refusal_bias and draw(st.booleans()):
+            # callbacks in front of entries that may not be read at all
+            pool = [e for e in ent if not Model.readable(e[2])] or ent
+        for (i, s, spec, kind) in draw(st.lists(st.sampled_from(pool), max_size=4 if refusal_bias else 3,
+                                                unique_by=lambda e: (e[0], e[1]))):
             how = draw(st.sampled_from(["typed", "bytes", "none"]))
+            cb = {"index": i, "sub": s, "ret": None}
             if how == "typed":
-                ret = draw(typed_value(spec["dt"], 40))
+                cb["ret"] = draw(typed_value(spec["dt"], 40))
             elif how == "bytes":
-                ret = draw(st.binary(max_size=30))
-            else:
-                ret = None
-            cbs.append({"index": i, "sub": s, "ret": ret})
+                cb["ret"] = draw(st.binary(max_size=30))
+            if isinstance(cb["ret"], bytes) and draw(st.booleans()):
+                cb["mutable"] = True     # the application hands out its own bytearray, the same every time
+            if ncb > 1:
+                cb["cb"] = draw(st.integers(0, ncb - 1))
+            cbs.append(cb)
         case["read_cb"] = cbs
+        if ncb > 1:
+            case["read_cbs"] = ncb
     if draw(st.integers(0, 4)) == 0:
         case["two_write_cbs"] = True
     case["source"] = draw(st.sampled_from(["code", "code", "eds", "dcf"]))
+    if case["source"] == "code" and draw(st.integers(0, 2)) == 0:
+        # code-built dictionary whose byte-valued defaults / parameter values are bytearrays of the application
+        for _i, _s, spec, _k in listed:
+            if isinstance(spec.get("default"), bytes) or isinstance(spec.get("value"), bytes):
+                spec["mutable"] = True
     used = {o["index"] for o in od}
     ops = []
     for _ in range(draw(st.integers(1, max_ops))):
         choice = draw(st.sampled_from(
-            ["upload", "upload", "download", "download", "junk", "stray", "missing", "abort"] +
-            (["refuse"] * 4 + ["set_access"] * 2 if refusal_bias else ["set_access"])))
+            ["upload", "upload", "download", "download", "junk", "stray", "missing", "abort", "reread", "toggle"] +
+            (["refuse"] * 4 + ["set_access"] * 2 + ["toggle"] if refusal_bias else ["set_access"])))
+        if choice == "reread":
+            # the same entry served repeatedly, with an interrupted upload in between
+            i, s, spec, kind = draw(st.sampled_from(ent))
+            ops.append({"op": "upload", "index": i, "sub": s})
+            if draw(st.booleans()):
+                ops.append({"op": "upload", "index": i, "sub": s, "stop_after": draw(st.integers(0, 2))})
+            ops.append({"op": "upload", "index": i, "sub": s})
+            continue
+        if choice == "toggle":
+            # a transfer left open, then a segment with the wrong toggle bit (the interpreter derives it)
+            i, s, spec, kind = draw(st.sampled_from(ent))
+            if draw(st.booleans()):
+                ops.append({"op": "upload", "index": i, "sub": s, "stop_after": draw(st.integers(0, 2))})
+                ops.append({"op": "toggle", "dir": "up"})
+            else:
+                dt = spec["dt"]
+                n = draw(st.integers(0, 9)) if dt in rc.NUMERIC else draw(st.integers(0, 30))
+                ops.append({"op": "download", "index": i, "sub": s, "data": draw(st.binary(min_size=n, max_size=n)),
+                            "style": draw(st.sampled_from(["seg_size", "seg_nosize"])),
+                            "stop_after": draw(st.integers(0, 2))})
+                ops.append({"op": "toggle", "dir": "down", "last": draw(st.booleans()),
+                            "payload": draw(st.binary(max_size=7))})
+            if draw(st.booleans()):
+                ops.append({"op": "upload", "index": i, "sub": s})
+            continue
         if choice == "set_access":
             i, s, spec, kind = draw(st.sampled_from(listed))
             ops.append({"op": "set_access", "index": i, "sub": s, "access": draw(st.sampled_from(ACCESS))})
@@ -736,6 +1087,8 @@ def history(draw, max_len, refusal_bias=False, max_ops=14):
                     op["stop_after"] = draw(st.integers(0, 3))
                 elif r == 1:
                     op["blockinit"] = True
+                elif r == 2:
+                    op["dirty"] = draw(st.one_of(st.sampled_from([1, 0x10, 0x1F, 0x80, 0xFF]), st.integers(1, 255)))
             else:
                 dt = spec["dt"]
                 if dt in rc.NUMERIC and (choice == "download" or draw(st.booleans())):
@@ -756,6 +1109,13 @@ def history(draw, max_len, refusal_bias=False, max_ops=14):
                       "style": draw(st.sampled_from(styles))}
                 if op["style"].startswith("seg") and n > 7 and draw(st.integers(0, 9)) == 0:
                     op["stop_after"] = draw(st.integers(0, 2))
+                if op["style"].startswith("seg") and draw(st.integers(0, 2)) == 0:
+                    # segments that are not full although they are not the last one
+                    op["chunks"] = draw(st.lists(st.integers(1, 7), min_size=1, max_size=4))
+                    if "stop_after" not in op and draw(st.integers(0, 2)) == 0:
+                        op["empty_last"] = True
+                if draw(st.integers(0, 9)) == 0:
+                    op["dirty"] = draw(st.one_of(st.sampled_from([1, 0x10, 0xEF, 0xFF]), st.integers(1, 255)))
             ops.append(op)
         elif choice == "missing":
             if draw(st.booleans()):
@@ -798,19 +1158,27 @@ def history(draw, max_len, refusal_bias=False, max_ops=14):
     return case
 
 
-def enum_cases():
+SHORT_CHUNKS = ([1], [2], [3], [4], [5], [6], [3, 7, 1, 6, 2, 5, 4], [7, 1], [6, 7])
+
+
+def enum_cases(lens=tuple(range(0, 65)), dts=(rc.DOMAIN, rc.OCTET_STRING)):
     """Every value length 0..64 served from each of the four sources and
-    downloaded in every style, on a fresh node each."""
-    for n in range(0, 65):
+    downloaded in every style, on a fresh node each.  The served entry is uploaded again after an
+    interrupted upload; callback values come from 1..3 registered callbacks and (every other length)
+    are the application's own bytearray, as are the defaults / parameter values; segmented downloads
+    also travel in short segments and with a trailing empty last segment."""
+    for n in lens:
         data = bytes(((i * 29 + n) % 255) + 1 for i in range(n))
-        for dt in (rc.DOMAIN, rc.OCTET_STRING):
+        for dt in dts:
             for src in ("default", "value", "both", "callback", "download"):
-                spec = {"kind": "var", "index": 0x2000 + n, "name": "x", "dt": dt, "access": "rw"}
+                index = 0x2000 + (n & 0xFFF)
+                spec = {"kind": "var", "index": index, "name": "x", "dt": dt, "access": "rw"}
                 case = {"od": [spec,
                                {"kind": "record", "index": 0x3000, "name": "r", "members": [
                                    {"sub": 0, "name": "n", "dt": rc.UNSIGNED8, "default": 1},
                                    {"sub": 1, "name": "a", "dt": dt, "access": "rw"}]}]}
                 ops = []
+                own = (n + (dt == rc.DOMAIN)) % 2 == 0     # the application's own bytearray
                 if src == "default":
                     spec["default"] = data
                 elif src == "value":
@@ -820,28 +1188,75 @@ def enum_cases():
                     spec["default"] = b"other default"
                 elif src == "callback":
                     spec["default"] = b"zz"
-                    case["read_cb"] = [{"index": 0x2000 + n, "sub": 0, "ret": data}]
+                    ncb = 1 + n % 3
+                    case["read_cb"] = [{"index": index, "sub": 0, "ret": data, "cb": (n // 3) % ncb}]
+                    case["read_cbs"] = ncb
+                    if own:
+                        case["read_cb"][0]["mutable"] = True
                 else:
                     spec["default"] = b"old"
                     styles = ["seg_size", "seg_nosize"] + (["exp"] if 1 <= n <= 4 else []) + \
                              (["exp_nosize"] if n == 4 else [])
                     for k, stl in enumerate(styles):
-                        ops.append({"op": "download", "index": 0x2000 + n, "sub": 0,
+                        ops.append({"op": "download", "index": index, "sub": 0,
                                     "data": data if k % 2 == 0 else data[::-1], "style": stl})
-                        ops.append({"op": "upload", "index": 0x2000 + n, "sub": 0})
+                        ops.append({"op": "upload", "index": index, "sub": 0})
                     ops.append({"op": "download", "index": 0x3000, "sub": 1, "data": data, "style": styles[0]})
                     ops.append({"op": "upload", "index": 0x3000, "sub": 1})
-                ops.append({"op": "upload", "index": 0x2000 + n, "sub": 0})
-                ops.append({"op": "upload", "index": 0x2000 + n, "sub": 0, "blockinit": True})
+                    # short segments that are not the last one / a trailing empty last segment
+                    for k, stl in enumerate(("seg_size", "seg_nosize")):
+                        ops.append({"op": "download", "index": index, "sub": 0, "data": data[::-1] if k else data,
+                                    "style": stl, "chunks": SHORT_CHUNKS[(n + 4 * k) % len(SHORT_CHUNKS)],
+                                    "empty_last": (n + k) % 2 == 0})
+                        ops.append({"op": "upload", "index": index, "sub": 0})
+                if src in ("default", "value", "both") and own:
+                    spec["mutable"] = True
+                ops.append({"op": "upload", "index": index, "sub": 0})
+                ops.append({"op": "upload", "index": index, "sub": 0, "stop_after": n % 3})
+                ops.append({"op": "upload", "index": index, "sub": 0})
+                ops.append({"op": "upload", "index": index, "sub": 0, "blockinit": True})
                 case["ops"] = ops
                 yield case
 
 
+LONG_LENS = (127, 128, 255, 256, 889, 890, 1000, 4095, 4096, 10000)
+DIRTY = (0x01, 0x02, 0x04, 0x08, 0x10, 0x1F, 0x80, 0xA5, 0xFF)
+
+
+def dirty_cases():
+    """Initiate / segment requests whose reserved bits and unused bytes are not zero, addressed to
+    entries that exist (values of 0..15 bytes, every numeric width): served or refused, never garbled."""
+    for n in (0, 1, 2, 3, 4, 5, 7, 8, 14, 15):
+        data = bytes(((i * 31 + n) % 255) + 1 for i in range(n))
+        od = [{"kind": "var", "index": 0x2000, "name": "x", "dt": rc.DOMAIN, "access": "rw", "default": data},
+              {"kind": "record", "index": 0x2001, "name": "r", "members": [
+                  {"sub": 0, "name": "n", "dt": rc.UNSIGNED8, "access": "ro", "default": 2},
+                  {"sub": 1, "name": "u16", "dt": rc.UNSIGNED16, "access": "rw", "default": 0x1234},
+                  {"sub": 2, "name": "o", "dt": rc.OCTET_STRING, "access": "rw", "value": data}]}]
+        for d in DIRTY:
+            ops = [{"op": "upload", "index": 0x2000, "sub": 0, "dirty": d},
+                   {"op": "upload", "index": 0x2001, "sub": 1, "dirty": d},
+                   {"op": "upload", "index": 0x2001, "sub": 2, "dirty": d, "stop_after": 1},
+                   {"op": "upload", "index": 0x2001, "sub": 0, "dirty": d}]
+            for stl in ("seg_size", "seg_nosize") + (("exp",) if 1 <= n <= 4 else ()):
+                ops += [{"op": "download", "index": 0x2001, "sub": 2, "data": data[::-1], "style": stl, "dirty": d,
+                         "chunks": SHORT_CHUNKS[(n + d) % len(SHORT_CHUNKS)]},
+                        {"op": "upload", "index": 0x2001, "sub": 2}]
+            ops += [{"op": "download", "index": 0x2001, "sub": 1, "data": b"\x01", "style": "exp", "dirty": d},
+                    {"op": "download", "index": 0x2001, "sub": 1, "data": b"\x34\x12", "style": "exp", "dirty": d},
+                    {"op": "upload", "index": 0x2001, "sub": 1},
+                    {"op": "upload", "index": 0x2000, "sub": 0}]
+            yield {"od": od, "ops": ops}
+
+
 def first_frame_cases():
-    """Anything as the very first frame a fresh node sees."""
-    od = [{"kind": "var", "index": 0x2000, "name": "x", "dt": rc.DOMAIN, "access": "rw", "default": b"abcdefghij"}]
+    """Anything as the very first frame a fresh node sees (addressing nothing, a segmented value, an
+    expedited value)."""
+    od = [{"kind": "var", "index": 0x2000, "name": "x", "dt": rc.DOMAIN, "access": "rw", "default": b"abcdefghij"},
+          {"kind": "var", "index": 0x2001, "name": "y", "dt": rc.UNSIGNED16, "access": "rw", "default": 0x1234}]
     for b0 in range(256):
-        for tail in (bytes(7), bytes([0x00, 0x20, 0x00, 1, 2, 3, 4]), bytes([0xFF] * 7)):
+        for tail in (bytes(7), bytes([0x00, 0x20, 0x00, 1, 2, 3, 4]), bytes([0xFF] * 7),
+                     bytes([0x01, 0x20, 0x00, 0xDE, 0xAD, 0xBE, 0xEF])):
             yield {"od": od, "ops": [{"op": "junk", "frame": bytes([b0]) + tail},
                                      {"op": "upload", "index": 0x2000, "sub": 0}]}
         for n in range(1, 8):
@@ -852,5 +1267,8 @@ def first_frame_cases():
 def search(ctx):
     thorough = ctx.tier == "thorough"
     ctx.enumerate(enum_cases(), "every value length 0..64 x value source x download style")
+    ctx.enumerate(enum_cases(LONG_LENS + ((2000, 7000, 9999) if thorough else ()), (rc.DOMAIN,)),
+                  "long values (up to 10^4 bytes) x value source x download style")
+    ctx.enumerate(dirty_cases(), "requests with non-zero reserved bits / unused bytes on existing entries")
     ctx.enumerate(first_frame_cases(), "every first byte x 1..8 byte frames as the first frame of a fresh node")
     ctx.hypothesis(history(10000 if thorough else 300), 15000 if thorough else 2500)
